@@ -262,7 +262,8 @@ def run(ctx):
         for es in c.get("edits") or []:
             ctx.count("rebuild after " + ("no edit" if not es else "clears only" if all(e[0] in O.CLEARS for e in es)
                                           else "whole-container clear" if any(e[0] in ("clear_edges", "clear_faces", "clear_cells") for e in es)
-                                          else "structural edits + clears" if any(e[0] in O.CLEARS for e in es) else "added edge"))
+                                          else "structural edits + clears" if any(e[0] in O.CLEARS for e in es)
+                                          else "added edge" if all(e[0] == "add_edge" for e in es) else "faces edited, corners not cleared"))
         ctx.count("declared edges %s" % ("0" if not c["edges"] else "1-4" if len(c["edges"]) < 5 else "5+"))
         for a in c["eattrs"]:
             ctx.count("attr %s%s%s" % ("dense" if a["dense"] else "sparse", " default" if a["default"] is not None else "",
